@@ -9,3 +9,10 @@ package version
 //@   may_panic
 //@   ensures len(result) == 8 && fresh(result)
 //@   assigns nothing
+
+//@ func FromMagicBytes
+//@   props C02 C10
+//@   may_panic
+//@   returns (v, err)
+//@   ensures err == nil ==> v == Version1b1 || v == Version1b2 || v == Version1b3
+//@   assigns nothing
